@@ -15,7 +15,7 @@ from collections import Counter
 
 from sim.core import Spec, Outcome, OK, VIOLATION, DISCARD, HarnessError, exc_sig, short_tb, shrink_list, register, derive_seed, VERIF, REPO, PY
 from sim import simfs as S
-from sim.sched import Baton, Policy, ExplicitPolicy
+from sim.sched import Baton, Policy, ExplicitPolicy, TaskCrashed
 
 import vc2_conformance.file_format as file_format  # noqa: E402
 import vc2_conformance.scripts.vc2_test_case_generator.cli as cli_mod  # noqa: E402
@@ -150,14 +150,14 @@ def reference(codec):
     return _REF[codec]
 
 
-def run_tasks(codes, policy, fs=None):
+def run_tasks(codes, policy, fs=None, crash=None):
     """Run worker commands as baton tasks on a fresh SimFS."""
     import logging
 
     swap_natural_pictures()
     fs = fs or S.SimFS("/sim")
     fs.record = False
-    baton = Baton(policy)
+    baton = Baton(policy, crash=crash)
     fs.hook = baton.yield_point
 
     def make(code):
@@ -330,7 +330,13 @@ class C24(Spec):
         if kind == "pct":
             d = rng.choice([1, 2, 3, 5])
             params["change_points"] = sorted(rng.randrange(1, 2500 * (take or 26)) for _ in range(d))
-        return {"codec": codec, "take": take, "take_seed": rng.randrange(1 << 30), "policy": kind, "params": params, "sched_seed": rng.randrange(1 << 48)}
+        case = {"codec": codec, "take": take, "take_seed": rng.randrange(1 << 30), "policy": kind, "params": params, "sched_seed": rng.randrange(1 << 48)}
+        if rng.random() < 0.2:
+            # crash-and-rerun arm: one worker is killed at one of its yield
+            # points (its partial files stay on the simulated disk), then the
+            # whole set of commands is run again over the same tree
+            case["crash"] = {"task": rng.randrange(64), "at": rng.choice([1, 2, 5, 20, 100, rng.randrange(1, 400), rng.randrange(1, 3000)])}
+        return case
 
     @staticmethod
     def resolve_tasks(case, ncmd):
@@ -468,8 +474,12 @@ class C24(Spec):
         cmds = ref["cmds"]
         tasks = self.resolve_tasks(case, len(cmds))
         codes = [cmds[i] for i in tasks]
-        _fs, baton, _ = run_tasks(codes, Policy(case["policy"], random.Random(case["sched_seed"]), case["params"]))
-        return {"codec": case["codec"], "tasks": tasks, "schedule": baton.trace, "from_policy": case["policy"]}
+        crash = {case["crash"]["task"] % len(codes): case["crash"]["at"]} if case.get("crash") and codes else None
+        _fs, baton, _ = run_tasks(codes, Policy(case["policy"], random.Random(case["sched_seed"]), case["params"]), crash=crash)
+        out = {"codec": case["codec"], "tasks": tasks, "schedule": baton.trace, "from_policy": case["policy"]}
+        if case.get("crash"):
+            out["crash"] = dict(case["crash"])
+        return out
 
     def shrink(self, case):
         if case.get("multi"):
@@ -528,7 +538,22 @@ class C24(Spec):
         else:
             policy = Policy(case["policy"], random.Random(case["sched_seed"]), case["params"])
             pname = case["policy"]
-        fs, baton, excs = run_tasks(codes, policy)
+        crash = None
+        if case.get("crash") and codes:
+            crash = {case["crash"]["task"] % len(codes): case["crash"]["at"]}
+        fs, baton, excs = run_tasks(codes, policy, crash=crash)
+        crashed = [t for t, e in excs.items() if isinstance(e, TaskCrashed)]
+        if crashed:
+            # the re-run: every command again, one after another, over the
+            # tree the interrupted run left behind
+            stats["crash:worker-killed"] += 1
+            for t in crashed:
+                excs[t] = None
+            fs.hook = None
+            fs, baton2, excs2 = run_tasks(codes, ExplicitPolicy([]), fs=fs)
+            for t, e in excs2.items():
+                if e is not None:
+                    excs[t] = e
         tree = rel_tree(fs, "/sim/out")
         sched_digest = hashlib.sha256(repr(baton.trace).encode()).hexdigest()[:16]
         events = [("case", codec, list(case["tasks"]), pname), ("schedule", sched_digest, baton.step, baton.switches), ("tree", tree_digest(tree), len(tree))]
@@ -899,7 +924,7 @@ class C23(Spec):
                     got, gvp, gpcm = file_format.read(nm("a", i) + ".json")
                     if got != pic or dict(gvp) != dict(vp) or gpcm != pcm:
                         return viol("C23/round-trip-differs", "file_format.read(write(x)) != x for picture %d (depths %s)" % (i, depth_class))
-                    hgot, used = h_read_raw(fs.get(nm("a", i) + ".raw"), dims)
+                    hgot, used = h_read_raw(fs.get(nm("a", i) + ".raw"), dims, strict=True)
                     if used != len(fs.get(nm("a", i) + ".raw")) or any(hgot[c] != pic[c] for c in ("Y", "C1", "C2")):
                         return viol("C23/on-disk-format", "raw file written for picture %d does not hold the samples in the documented planar little-endian layout" % i)
                 if case.get("rewrite"):
